@@ -341,6 +341,20 @@ def freed_once_rule(fx, ck, name="R7.returned-handle-freed-once"):
     return n
 
 
+def state_rule(fx, prefix="ffi::", bare=("value::JsValue", "gc::Gc<")):
+    """[(adt, field, type, ok)]: a struct / enum of the API layer lives from one call to a later one; a script value stored in one as a bare
+    JsValue / Gc is seen by no guard (the collector does not trace these types), so it must be stored as a RuntimeValue (value + guard) or as a handle"""
+    out = []
+    for name, adt in sorted(fx.adts.items()):
+        if not name.startswith(prefix):
+            continue
+        for v in adt["variants"]:
+            for fld in v["fields"]:
+                ts = fx.tys(fld["ty"])
+                out.append((name, "%s%s" % ((v.get("name") + ".") if len(adt["variants"]) > 1 and v.get("name") else "", fld["name"]), ts, not any(b in ts for b in bare)))
+    return out
+
+
 def run(tier):
     ck = Check("C17", tier, "null-test dominance on MIR CFG for extern \"C\" pointer parameters (helpers, closures, array idiom) + C header parser compared with compiled signatures + RefCell-guard-held-across-hazard dataflow",
                ["aliasing of `&mut TsRunContext` re-borrowed inside native callbacks", "callback re-entrancy protocols",
@@ -359,4 +373,14 @@ def run(tier):
     arraylen.rule(fx, ck)
     borrowed_error_rule(fx, ck)
     freed_once_rule(fx, ck)
+    ck.rule("R8.api-state-holds-guarded-values", "no struct or enum of src/ffi stores a bare JsValue / Gc: script values are kept between calls as RuntimeValue (value + guard) or as handles", floor=30)
+    for adt8, fld8, ty8, ok8 in state_rule(fx):
+        ck.instance("R8.api-state-holds-guarded-values", "%s.%s: %s" % (adt8, fld8, ty8), None, ok=ok8, nontrivial=not ok8)
+        if not ok8:
+            ck.finding("R8.api-state-holds-guarded-values", "R8.api-state-holds-guarded-values/%s/%s" % (adt8, fld8), None,
+                       "`%s` keeps a script value in `%s: %s`: the collector does not trace API-layer state, so an object stored there between two calls (a module builder's "
+                       "export between add_value and register) is swept by the next collection and the script reads a recycled object" % (adt8, fld8, ty8))
+    got8 = sorted((a.split("::")[-1], ok) for a, fl, ty, ok in state_rule(F.load_fixture(), prefix="c17state::"))
+    if got8 != [("BadBuilder", False), ("GoodBuilder", True), ("GoodHandles", True)]:
+        ck.closed_fail.append("R8 control failed: fixture gives %s" % got8)
     return ck.finish()
